@@ -79,11 +79,9 @@ def famCli (H : HashFn) (kv : KV) : String × String :=
   else if op == "getblock" then
     let c := (parseCid (KV.getD kv "c" "")).getD default
     let o : WOpts := {}
-    let m := match openReadOnly .blockstore o .auto input with
+    let m := match getBlockCmd input c with
+      | .ok d => s!"r=ok out={hexOr d}"
       | .error _ => "r=err"
-      | .ok r => match r.step o (.get c) with
-        | .data d => s!"r=ok out={hexOr d}"
-        | _ => "r=err"
     let s := if c.isIdentity then s!"r=ok out={hexOr c.digest}" else
       match blocks.find? fun b => Spec.sameKey o b.cid c with
       | some b => s!"r=ok out={hexOr b.data}"
